@@ -292,4 +292,20 @@ theorem C20_proto_shared_var_unsafe :
   · simp [afterCall, sBk, gb1, gb, initG]
   · simp [afterCall, sBk, gb1, gb, gc, initG, setVar, Acc.add, ro, s2]
 
+/-- **Options the split never reads reach every backend unchanged**: `where`, `include`, `cluster_id`,
+`include_trash`, `include_old_versions`, `distinct` of every request a split sends are the client's. -/
+theorem C20_options_forwarded (cfg : Cfg) (o : Opts) (c : ClusterId) (todo : List Uuid) :
+    ∀ e ∈ (runCluster cfg o c todo).log,
+      e.1.whereKV = o.whereKV ∧ e.1.includeS = o.includeS ∧ e.1.clusterId = o.clusterId ∧
+      e.1.includeTrash = o.includeTrash ∧ e.1.includeOldVersions = o.includeOldVersions ∧
+      e.1.distinct = o.distinct := by
+  intro e he
+  unfold runCluster at he
+  cases hb : backendFor cfg c with
+  | none => rw [hb] at he; simp at he
+  | some B =>
+    rw [hb] at he
+    obtain ⟨batch, i, _, _, rfl⟩ := (loop_log B _ _ todo 0).1 e he
+    exact ⟨rfl, rfl, rfl, rfl, rfl, rfl⟩
+
 end ArvVerif.C20
